@@ -14,3 +14,11 @@ claim('C05',
       "Bounded symbolic model checking of the real row iterators and sparse loaders on an h5py model: every sparsity pattern of the listed shapes with symbolic stored values, dense/CSR/CSC, X and a named layer, a symbolic row-chunk size, every block size of the CSC->CSR conversion, every contiguous sub-range and every duplicate-free row list; delivered values are compared with the stored ones by term identity.",
       "h5py model and a 12-line scipy.sparse.csr_matrix.toarray model stand in for the libraries (self-test re-runs sampled inputs through real h5py/scipy files); HDF5 chunk layout and dtype conversion inside libhdf5 are outside; row lists with repeats are outside (docstring says set of rows)",
       "DESIGN.md §4 C05")
+claim('C10',
+      "Bounded exhaustive exploration with the solver as enumerator: every child->parent map of the listed level sizes (quick: <=3 levels / 4 leaves; thorough: up to 4 levels / 6 leaves) and every single edit of it is run through the real validator and compared with an independent strict-tree predicate; on every valid tree flatten / drop-level / serialise-reread / partition / parent-child inverse / leaf-pair obligations are evaluated against an independent oracle built from the child->parent map.",
+      "the taxonomy code is pure Python over concrete structures, so once the solver has fixed the structure every obligation is a concrete evaluation; node names are opaque fixed strings whose alphabetical order differs from index order",
+      "DESIGN.md §4 C10")
+claim('C08',
+      "Bounded symbolic model checking of the real marker reconciliation chain (validate_marker_lookup -> create_marker_cache_from_specified_markers -> write_query_markers_to_h5 -> reconcile_taxonomy_and_markers / serialize_markers / assemble_query_data) against a reference model written from the statement, for every tree, marker table, query gene subset/order and min_markers inside the bounds; query/reference values are symbolic and compared by term identity (pairing by name).",
+      "h5py model; inputs on which the statement allows either outcome (single-child root without usable markers, genes unknown to both files) are accepted either way and counted separately; min_markers=0 outside",
+      "DESIGN.md §4 C08")
